@@ -69,6 +69,14 @@ Fixpoint geval_gen (n : nat) (e : exp) (f : frame) (st : St) {struct n} : res * 
       | (Fatal x, st1) => (Fatal x, st1)
       end
     | SkipTo e1 => skipto_go text re_at ic n' (geval_gen n') e1 f st
+    | Assoc lft e1 =>
+      match geval_gen n' e1 (push f) st with      (* a state scope of its own: the tree replaces the flat list there, then merges *)
+      | (Ok r f1, st1) =>
+        let v := (if lft then left_assoc else right_assoc) (list_items r) in
+        (Ok v (merge f (set_cst f1 v)), st1)
+      | (Fail _, st1) => (Fail (cutseen f), st1)
+      | (Fatal x, st1) => (Fatal x, st1)
+      end
     | Call r => on_call n' (geval_gen n') r f st
     | Named false nm e1 =>
       match geval_gen n' e1 f st with
